@@ -25,8 +25,8 @@ import Nstd.Sha.Spec
                       (model side: the generated `Transform` of the selected configuration)
   A digest line is `FAULT` when the model's ghost flag recorded an out-of-range array read.
   The observable is the digest; `update`/`rst` print `ok` only.
-  `update`/`updatenull`/`final`/`rst`/`hash` execute the bodies TRANSLATED from the sources (`Nstd.Generated.Sha256Body`), `hmac`
-  the hand-written model function (built on the model's `update`/`finalize`, proved equal: `generated_bodies_are_the_model`), so both are tied to the real code.
+  `update`/`updatenull`/`final`/`rst`/`hash`/`hmac`/`hmacnullkey`/`hmacnullmsg` execute the bodies TRANSLATED from the sources
+  (`Nstd.Generated.Sha256Body`); `hmac` starts its four uninitialised local arrays with an input-dependent poison pattern.
 -/
 open Nstd.Common
 namespace Nstd.Sha
@@ -42,8 +42,12 @@ def hashLine (b : List UInt8) : String :=
   let r := finalize (update init b)
   digestLine r.2.ok (Nstd.Generated.Sha256Body.hash b)
 
+/-- the TRANSLATED `Sha256::hmac`; its four local arrays are uninitialised in C++: they start with a poison pattern that
+varies with the input (the result does not depend on it: `hmac_translated_eq_rfc2104`) -/
 def hmacLine (k m : List UInt8) : String :=
-  let r := hmac k m
+  let poison := UInt8.ofNat (0xA5 + 7 * k.length + m.length)
+  let r := Nstd.Generated.Sha256Body.hmac (List.replicate 64 poison) (List.replicate 64 (poison + 1)) (List.replicate 64 (poison + 2))
+    (List.replicate 32 (poison + 3)) k m
   digestLine r.2 r.1
 
 /-- the words of a big-endian byte string (`xform`) -/
